@@ -1977,6 +1977,9 @@ func main() {
 	close(cases)
 	wg.Wait()
 	close(done)
+	if fatal.Load() == nil {
+		extraStreams()
+	}
 	if e := fatal.Load(); e != nil {
 		fmt.Fprintln(os.Stderr, "harness failure:", e)
 		os.Exit(3)
@@ -1984,7 +1987,10 @@ func main() {
 	rep.Rule = "cases: corpus; boundary families (creation along name/index chains, root, scalar roots); exhaustive slice box (start, end, step incl. absent x length x " +
 		"inner/last position x mutator); every fragment of an alphabet in every position of short paths over small trees; seeded random paths x random trees x " +
 		"values / modifiers. Every case: the plain and the Must form on simple and on gen data (4 calls), judged by the specification (Lean), compared with the model " +
-		"(Lean), simple against gen, Must against plain, plus Go-side cross-checks. distinct_nontrivial counts distinct calls with a non-empty path and a container root"
+		"(Lean), simple against gen, Must against plain, plus Go-side cross-checks. distinct_nontrivial counts distinct calls with a non-empty path and a container root. " +
+		"Driver-free differential streams (extra.go): selfref (filter operands that read the filtered container, against the same call with the operand's value written out), " +
+		"alias (one Go slice under two members, Remove/RemoveOne against the call on the tree-shaped copy), typed ([]int, []string, []map[string]any, map[string]int, typed roots, " +
+		"against the call on the simple document)"
 	if err := rep.Write(*outPath); err != nil {
 		fmt.Fprintln(os.Stderr, err)
 		os.Exit(3)
@@ -2001,6 +2007,13 @@ func runReplay() {
 	if err := json.Unmarshal(data, &m); err != nil {
 		fmt.Fprintln(os.Stderr, err)
 		os.Exit(3)
+	}
+	if replayExtra(m) {
+		if err := rep.Write(*outPath); err != nil {
+			fmt.Fprintln(os.Stderr, err)
+			os.Exit(3)
+		}
+		return
 	}
 	// the runner wraps the finding: look for the case at the top level or under "replay"
 	cs, _ := m["case"].(string)
